@@ -2,6 +2,9 @@
 (* Model-checking wrapper of Offset.tla.  Two configurations:                 *)
 (*   OffsetMC.cfg           trees <= 4 nodes, 2 x 8 grid   (quick tier)       *)
 (*   OffsetMC_thorough.cfg  trees <= 4 nodes, 2 x 8 grid                      *)
+(*   OffsetMC_cache.cfg / OffsetMC_cache_thorough.cfg  trees <= 3 nodes, one   *)
+(*                          wrapped node (own grouping parentheses / trailing *)
+(*                          comment), explicit cache state, warm modes        *)
 (*   OffsetMC_n5.cfg        trees <= 5 nodes, 2 x 8 grid, nodes of non-zero   *)
 (*                          width with separators only, reduced alphabets     *)
 (* Gap texts: any gap may be empty (adjacent tokens) or a line break; at most *)
@@ -12,6 +15,10 @@ EXTENDS Offset
 MCGapAlpha  == {<<0>>, <<0, 0>>}
 MCRichAlpha == {<<1>>, <<2>>, <<1, 0>>, <<0, 1>>, <<1, 1>>}
 MCInsAlpha  == {<<0>>, <<1>>, <<2>>, <<0, 0>>, <<1, 0>>, <<0, 1>>}
+
+MCWarmAll   == {"all"}
+MCWarmModes == {"none", "all", "anc", "sib"}
+MCWarmTwo   == {"all", "sib"}
 
 MCRichAlpha5 == {<<1>>, <<1, 1>>}
 MCInsAlpha5  == {<<0>>, <<1>>, <<0, 1>>}
